@@ -68,11 +68,49 @@ def run(rep, ctx):
     rep.not_decided.append("equality of query *answers* between warm and fresh databases beyond purity and memo coherence")
 
 
+def _registration_side(ctx):
+    """Registration methods and fillers, plus private helpers that are only ever called from them (a block of
+    table rows moved into `_AddUnits(db, rows)`): qualified names."""
+    cached = getattr(ctx, "_registration_side", None)
+    if cached is not None:
+        return cached
+    m, eff = ctx.model, ctx.effects
+    side = {q for q, fn in m.funcs.items() if _is_registration(fn)}
+    callers = {}
+    for caller, callees in eff.calls.items():
+        for c in callees:
+            callers.setdefault(c, set()).add(caller)
+    # callers the effect analysis does not record (the table module is not part of it): by reference, same module
+    for q, fn in m.funcs.items():
+        if q in side or q in callers or not (fn.name.startswith("_") and not fn.name.startswith("__")) or not fn.path.endswith("posc.py"):
+            continue
+        for q2, f2 in m.funcs.items():
+            if f2.path == fn.path and f2 is not fn and f2.parent is None:
+                if any((isinstance(x, ast.Name) and x.id == fn.name) or (isinstance(x, ast.Attribute) and x.attr == fn.name) for x in ast.walk(f2.node)):
+                    callers.setdefault(q, set()).add(q2)
+    changed = True
+    while changed:
+        changed = False
+        for q, fn in m.funcs.items():
+            if q in side or not (fn.name.startswith("_") and not fn.name.startswith("__")):
+                continue
+            cs = callers.get(q, set()) - {q}
+            if cs and cs <= side:
+                side.add(q)
+                changed = True
+    try:
+        ctx._registration_side = side
+    except Exception:
+        pass
+    return side
+
+
 def r1_purity(rep, ctx):
     m, eff = ctx.model, ctx.effects
     n = 0
+    side = _registration_side(ctx)
     for q, fn in sorted(m.funcs.items()):
-        if ctx.prov.skip(q) or _is_registration(fn):
+        if ctx.prov.skip(q) or q in side:
             continue
         if "rich_text" in fn.path:
             continue
@@ -94,7 +132,7 @@ def r1_purity(rep, ctx):
         else:
             root = path[-1]
             rootfn = m.funcs[root]
-            if _is_registration(rootfn):
+            if root in side:
                 rep.bad("C15.R1", key, "%s is not a registration method but %s" % (fn.name, what), fn=fn, facts={"path": path})
             else:
                 rep.ok("C15.R1", key, "impure only through %s, which is reported itself" % root.split(".", 2)[-1], fn=fn)
@@ -213,7 +251,7 @@ def r4_no_unlisted_memo(rep, ctx):
     n = 0
     for q, ws in sorted(eff.direct_w.items()):
         fn = m.funcs[q]
-        if _is_registration(fn) or fn.name in ("__init__", "__new__"):
+        if q in _registration_side(ctx) or fn.name in ("__init__", "__new__"):
             continue
         for w in sorted(ws):
             if w[0] not in ("UnitDatabase", "Quantity") or is_registry_atom(w):
